@@ -188,14 +188,23 @@ WGrid(d) == VecsOver(-8..8, d)                                  \* half-integers
 WitnessOf(C, d) ==
     LET S == {x \in WGrid(d) : SatAll(C, x, 2)}
     IN IF S = {} THEN <<>> ELSE <<CHOOSE x \in S : \A y \in S : Dot(x, x) <= Dot(y, y)>>
-NewState(t, p, n) ==
+\* fault = "" (the solver answers correctly) | "Error" | "Unbounded" | "Perturbed" | "FarOff"  (C11: LP faults as environment)
+\* -> [st, w, lp : whether an LP call was made]
+NewStateF(t, p, n, fault) ==
     LET lab == LabelOf(t, n)
         half == ClosedConsOf(t.nodes[p], lab)
         inh == IF t.nodes[p].st = "W" THEN SelectSeq(t.nodes[p].w, LAMBDA x : SatAll(half, x, 2)) ELSE <<>>
         C == ClosedRegion(t, n)
-    IN IF inh # <<>> THEN [st |-> "W", w |-> inh]
-       ELSE IF ~Feas(C, t.dim) THEN [st |-> "X", w |-> <<>>]
-       ELSE LET ws == WitnessOf(C, t.dim) IN IF ws = <<>> THEN [st |-> "F", w |-> <<>>] ELSE [st |-> "W", w |-> ws]
+        ws == WitnessOf(C, t.dim)
+    IN IF inh # <<>> THEN [st |-> "W", w |-> inh, lp |-> FALSE]
+       ELSE CASE fault = "Error" -> [st |-> "I", w |-> <<>>, lp |-> TRUE]                       \* phase_two: Error => Indeterminate
+              [] fault = "Unbounded" -> [st |-> "F", w |-> <<>>, lp |-> TRUE]                   \* Unbounded => Feasible without witness
+              [] fault = "FarOff" -> [st |-> "I", w |-> <<>>, lp |-> TRUE]                      \* point outside, repair fails => Indeterminate
+              [] fault = "Perturbed" -> (IF ws = <<>> THEN [st |-> "I", w |-> <<>>, lp |-> TRUE]     \* repair succeeds only inside the region
+                                        ELSE [st |-> "W", w |-> ws, lp |-> TRUE])
+              [] OTHER -> (IF ~Feas(C, t.dim) THEN [st |-> "X", w |-> <<>>, lp |-> TRUE]
+                           ELSE IF ws = <<>> THEN [st |-> "F", w |-> <<>>, lp |-> TRUE] ELSE [st |-> "W", w |-> ws, lp |-> TRUE])
+NewState(t, p, n) == NewStateF(t, p, n, "")
 
 RECURSIVE RemoveLabels(_, _, _, _)
 RemoveLabels(t, p, labs, j) == IF j > Len(labs) THEN t ELSE RemoveLabels(RemoveChild(t, p, labs[j]), p, labs, j + 1)
@@ -217,22 +226,27 @@ FinalRemove(t, rm, j) ==
          THEN FinalRemove(RemoveChild(t, p, lab), rm, j + 1)
          ELSE FinalRemove(t, rm, j + 1)
 
-RECURSIVE ElimLoop(_, _, _)
-ElimLoop(t, c, rm) ==
-    IF c.st = <<>> THEN FinalRemove(t, rm, 1)
+\* plan: set of <<LP call number (0-based), fault kind>>
+FaultAt(plan, k) == IF \E pr \in plan : pr[1] = k THEN (CHOOSE pr \in plan : pr[1] = k)[2] ELSE ""
+RECURSIVE ElimLoop(_, _, _, _, _)
+\* -> [t, lpn]
+ElimLoop(t, c, rm, lpn, plan) ==
+    IF c.st = <<>> THEN [t |-> FinalRemove(t, rm, 1), lpn |-> lpn]
     ELSE LET r == DfsNext(t, c)
              n == r.item.idx
-         IN IF n = t.root THEN ElimLoop(t, r.c, rm)
-            ELSE IF t.nodes[n].st = "X" THEN ElimLoop(t, DfsSkip(r.c), rm)
-            ELSE IF t.nodes[n].st \in {"F", "W"} THEN ElimLoop(t, r.c, rm)
+         IN IF n = t.root THEN ElimLoop(t, r.c, rm, lpn, plan)
+            ELSE IF t.nodes[n].st = "X" THEN ElimLoop(t, DfsSkip(r.c), rm, lpn, plan)
+            ELSE IF t.nodes[n].st \in {"F", "W"} THEN ElimLoop(t, r.c, rm, lpn, plan)
             ELSE LET p == t.nodes[n].p
-                     s == NewState(t, p, n)
+                     s == NewStateF(t, p, n, FaultAt(plan, lpn))
                      c2 == IF s.st = "X" THEN DfsSkip(r.c) ELSE r.c
                      rm2 == IF s.st = "X" THEN Append(rm, <<LabelOf(t, n), p>>) ELSE rm
                      t2 == SetNode(t, n, [t.nodes[n] EXCEPT !.st = s.st, !.w = s.w])
                      t3 == IF r.item.rem = 0 THEN ForwardIfRedundant(t2, p) ELSE t2
-                 IN ElimLoop(t3, c2, rm2)
-Eliminate(t) == ElimLoop(t, DfsNew(t), <<>>)
+                 IN ElimLoop(t3, c2, rm2, IF s.lp THEN lpn + 1 ELSE lpn, plan)
+EliminateF(t, plan) == ElimLoop(t, DfsNew(t), <<>>, 0, plan).t
+Eliminate(t) == EliminateF(t, {})
+LpCalls(t) == ElimLoop(t, DfsNew(t), <<>>, 0, {}).lpn
 
 \* ------------------------------------------------------------------ building trees from abstract trees
 (* abstract tree: [t |-> "L", a |-> aff] | [t |-> "D", a |-> predicate aff, kids |-> Seq(K) of abstract trees] | [t |-> "M"] *)
